@@ -23,8 +23,8 @@ import (
 type Engine struct{ tier string }
 
 func New(tier string) kernel.Engine { return &Engine{tier: tier} }
-func (e *Engine) Name() string       { return "regsim" }
-func (e *Engine) Close()             {}
+func (e *Engine) Name() string      { return "regsim" }
+func (e *Engine) Close()            {}
 
 // ---- harness node types (what a plugin would define) ----------------------------
 
@@ -246,6 +246,7 @@ func reference(items []item, pos *int) (string, bool) {
 // ---- registration model ----------------------------------------------------------------------
 
 type regModel struct {
+	atom    bool // the builders carry the operand plugin: `@` is an operand supplied by an expression interceptor
 	ids     map[string]token.Type
 	order   []string
 	prefix  map[token.Type]bool
@@ -274,6 +275,7 @@ func newRegModel() *regModel {
 
 func (m *regModel) snapshot() *regModel {
 	c := newRegModel()
+	c.atom = m.atom
 	for k, v := range m.ids {
 		c.ids[k] = v
 	}
@@ -318,7 +320,31 @@ var wordPool = []string{"OPa", "OPb", "OPc", "OPd", "OPe", "OPf"}
 // outside the built-in range as any other name's.
 var oddNames = []string{"null", "true", "false", "function", "let", "if", "else", "while", "for", "return", "", " ", "+", "&&", "a b", "\u00e9", "EOF", "ILLEGAL"}
 
+// runSmart: every builder of the current run (pairs, twins, the plain reference) has smart semicolons on. The
+// option only concerns a `(` or `[` that starts a line, which no probe contains: grouping must not change.
+var runSmart bool
+
 func newPair() *pair { return newPairWith(0) }
+
+// useAtomPlugin: an operand form supplied by a plugin the documented way - an expression interceptor that
+// recognises a token no built-in parse function exists for (`@`, an ILLEGAL token to the lexer) and returns a
+// node for it. Wherever an operand may stand - also after a registered prefix operator - it must be accepted.
+func useAtomPlugin(pb *parser.Builder) {
+	pb.UseExpressionInterceptor(func(ps *parser.Parser, next func() ast.Expression) ast.Expression {
+		if ps.CurrentToken.Type == token.ILLEGAL && ps.CurrentToken.Literal == "@" {
+			return ps.ParseRemainingExpression(&ast.Identifier{Token: ps.CurrentToken, Value: "@"})
+		}
+		return next()
+	})
+}
+
+func drawIcpt(ch *kernel.Chooser) int {
+	icpt := ch.Weighted(5, 1, 1, 1)
+	if ch.Bool(1, 4) {
+		icpt |= 4
+	}
+	return icpt
+}
 
 // newPairWith: the builders may carry transparent expression interceptors (a pass-through one, one that parses
 // the prefix itself and lets the parser continue); registered operators must group the same with them.
@@ -333,7 +359,11 @@ func newPairWith(icpt int) *pair {
 		}
 		return t
 	})
-	p.pb = parser.NewBuilder(p.lb)
+	p.pb = parser.NewBuilder(p.lb).WithSmartSemicolon(runSmart)
+	if icpt&4 != 0 {
+		useAtomPlugin(p.pb)
+		p.model.atom = true
+	}
 	if icpt&1 != 0 {
 		p.pb.UseExpressionInterceptor(func(_ *parser.Parser, next func() ast.Expression) ast.Expression { return next() })
 	}
@@ -498,6 +528,10 @@ func genProbe(ch *kernel.Chooser, snap *regModel, st *kernel.Stats) (probe, bool
 	}
 	next := 0
 	operand := func() item {
+		if snap.atom && ch.Bool(1, 4) {
+			st.Inc("probe.operand_supplied_by_expression_interceptor")
+			return item{kind: kOperand, text: "@", label: "@"}
+		}
 		n := operandNames[next%len(operandNames)]
 		next++
 		return item{kind: kOperand, text: n, label: n}
@@ -718,7 +752,7 @@ func (e *Engine) builtinHostScenario(ch *kernel.Chooser, st *kernel.Stats) kerne
 	res := kernel.RunResult{Evals: 1, Nontrivial: true}
 	h := builtinHosts[ch.Choose(len(builtinHosts))]
 	level := 2 + ch.Choose(12)
-	icpt := ch.Weighted(5, 1, 1, 1)
+	icpt := drawIcpt(ch)
 	const word = "OPz"
 	// pair D: the operator on a dynamic token; pair B: the same operator on the built-in token
 	d, b := newPairWith(icpt), newPairWith(icpt)
@@ -799,7 +833,7 @@ func (e *Engine) builtinHostScenario(ch *kernel.Chooser, st *kernel.Stats) kerne
 		}
 		if (aerr == "") != (xerr == "") || sa != sx {
 			res.Violations = append(res.Violations, kernel.Violation{Property: "C05", Kind: "grouping", Signature: "substitution|builtin-host|" + h.role,
-				Detail: fmt.Sprintf("%s operator (level %d) hosted on the built-in token %s: %q parses as %s %s; the same operator on a dynamic token, %q, parses as %s %s", h.role, level, h.sym, textB, sx, xerr, textD, sa, aerr),
+				Detail:       fmt.Sprintf("%s operator (level %d) hosted on the built-in token %s: %q parses as %s %s; the same operator on a dynamic token, %q, parses as %s %s", h.role, level, h.sym, textB, sx, xerr, textD, sa, aerr),
 				Materialised: map[string]any{"role": h.role, "symbol": h.sym, "level": level, "probe_dynamic": textD, "probe_builtin_host": textB}})
 			return res
 		}
@@ -808,15 +842,22 @@ func (e *Engine) builtinHostScenario(ch *kernel.Chooser, st *kernel.Stats) kerne
 }
 
 func (e *Engine) Run(prop string, ch *kernel.Chooser, st *kernel.Stats) kernel.RunResult {
+	runSmart = ch.Bool(1, 4)
+	if runSmart {
+		st.Inc("probe.builders_with_smart_semicolons")
+	}
 	if ch.Bool(1, 12) {
 		return e.builtinHostScenario(ch, st)
 	}
 	nPairs := 1 + ch.Weighted(3, 2)
 	pairs := make([]*pair, nPairs)
 	for i := range pairs {
-		pairs[i] = newPairWith(ch.Weighted(5, 1, 1, 1))
+		pairs[i] = newPairWith(drawIcpt(ch))
 		if pairs[i].icpt != 0 {
 			st.Inc("probe.builders_with_expression_interceptors")
+		}
+		if pairs[i].icpt&4 != 0 {
+			st.Inc("probe.builders_with_operand_plugin")
 		}
 	}
 	if nPairs > 1 {
@@ -839,7 +880,8 @@ func (e *Engine) Run(prop string, ch *kernel.Chooser, st *kernel.Stats) kernel.R
 	}
 	var deferred []built
 	res := kernel.RunResult{Evals: 1}
-	plain := xutil.PlainBuilder(xutil.Mode{})
+	plain := xutil.PlainBuilder(xutil.Mode{Smart: runSmart})
+	useAtomPlugin(plain)
 
 	checkProbe := func(pi int, p *pair, snap *regModel, pr probe, pb *parser.Builder, pre *parser.Parser, when string) {
 		res.Evals++
@@ -1230,7 +1272,7 @@ func init() {
 			}
 			return kernel.TierSpec{Runs: 400_000, WallSeconds: 45, ShrinkSecs: 20, RunBudgetMs: 20000}
 		},
-		Rule: "each run = one seeded registration history (<=24 operations over RegisterTokenType / Register{Prefix,Infix,Postfix}Operator with repeated names, built-in tokens and levels 1..13, on one or two builder pairs) interleaved with Build operations (parsed at once or after later registrations) and probe expressions placing a registered operator next to built-in binary, unary, postfix, call, member, index and assignment operators on either side; distinct = distinct hash of the history including probe texts; non-trivial = at least 3 history operations",
+		Rule:      "each run = one seeded registration history (<=24 operations over RegisterTokenType / Register{Prefix,Infix,Postfix}Operator with repeated names, built-in tokens and levels 1..13, on one or two builder pairs) interleaved with Build operations (parsed at once or after later registrations) and probe expressions placing a registered operator next to built-in binary, unary, postfix, call, member, index and assignment operators on either side; distinct = distinct hash of the history including probe texts; non-trivial = at least 3 history operations",
 		Real:      []string{"lexer.Builder (RegisterTokenType, token interceptor chain)", "parser.Builder (operator registration, duplicate bookkeeping, Build)", "parser (binding-power table copy, registered operator parse functions)"},
 		Simulated: []string{"the registering plugins and their order", "refused registrations as injected faults", "the caller building parsers at arbitrary points of the history"},
 		Oracles:   []string{"reference registration model (name->id, role sets seeded with the built-in operator roles)", "substitution: the same probe with built-in operators of the same level parsed by a plain parser", "operator-stack (shunting-yard) grouping model, cross-checked against xjs on built-in-only expressions in every run", "twin builder replaying only the accepted registrations"},
